@@ -141,6 +141,13 @@ def generate():
         pats['pandas.' + n] = p
         lines.append('/-- DataTypes/_time_checking.py %s = %s -/' % (n, p.replace('-/', '- /')))
         lines.append('def pandas_%s : Re :=\n  %s\n' % (n.lstrip('_'), transcribe(p, mode)))
+    cfg = importlib.import_module('vtlengine.duckdb_transpiler.Config.config')
+    for n in ('DEFAULT_DECIMAL_WIDTH', 'DEFAULT_DECIMAL_SCALE'):
+        if not isinstance(getattr(cfg, n, None), int):
+            raise vlib.ShapeError('Config/config.py has no integer constant %s' % n)
+    lines.append('/-- Config/config.py DEFAULT_DECIMAL_WIDTH / DEFAULT_DECIMAL_SCALE -/')
+    lines.append('def decimalWidth : Int := %d' % cfg.DEFAULT_DECIMAL_WIDTH)
+    lines.append('def decimalScale : Int := %d\n' % cfg.DEFAULT_DECIMAL_SCALE)
     names = ['sql_' + n for n in SQL_PATTERNS] + ['pandas_' + n.lstrip('_') for n, _ in PANDAS_PATTERNS]
     lines.append('def patternByName (n : String) : Option Re :=')
     for n in names:
